@@ -234,6 +234,32 @@ def finish_crashes(prop, crashes) -> int:
     return rc
 
 
+def history_replay(prop, v, w):
+    """Replay file made of the worker's run indices up to v['run']; returns its path if a fresh interpreter meets the
+    same violation class at that index, after trying to reduce the history to one earlier scenario."""
+    def attempt(hist, tag):
+        doc = {"property": prop, "history": hist, "expect": {"class": v["class"], "detail": v["detail"], "info": v.get("info", {})}}
+        path = os.path.join(VERIF, "replays", f"{prop}-history-s{hist['seed']}-run{hist['upto']}-{tag}.json")
+        with open(path, "w") as fp:
+            json.dump(doc, fp, indent=1, sort_keys=True)
+        try:
+            p = subprocess.run([PY, "-m", "sim.replay", prop, path], cwd=VERIF, env=child_env(prop), capture_output=True, text=True, timeout=3000)
+        except subprocess.TimeoutExpired:
+            return None
+        return path if (p.returncode == 1 and "VIOLATION" in p.stdout) else None
+
+    base = {"seed": v.get("seed", int(os.environ.get("VERIF_SEED", "0"))), "tier": w["tier"], "stripe": w["stripe"], "nstripes": w["nstripes"], "upto": v["run"]}
+    full = attempt(base, "full")
+    if not full:
+        return None
+    earlier = list(range(w["stripe"], v["run"], w["nstripes"]))
+    for j in list(reversed(earlier))[:24]:
+        one = attempt({**base, "only": [j, v["run"]]}, f"after{j}")
+        if one:
+            return one
+    return full
+
+
 def finish(prop, meta, tier, seed, results, det_res, t0, t_warm, jobs, no_evidence) -> int:
     import numpy as np
 
@@ -315,6 +341,23 @@ def finish(prop, meta, tier, seed, results, det_res, t0, t_warm, jobs, no_eviden
                 unconfirmed = [u for u in unconfirmed if u[0]["class"] != v["class"]]
             else:
                 unconfirmed.append((v, p.stdout[-1500:] + p.stderr[-1500:]))
+        # Violations seen in a worker that no single scenario reproduces in a fresh interpreter: state leaked from an
+        # EARLIER scenario of the same process (module-level caches, defaults evaluated once, ...).  Re-execute the
+        # worker's scenario history in a fresh interpreter; if the violation reappears at the same run index the
+        # history is the replay file, minimised to "one earlier scenario + this one" when that suffices.
+        done_hist = set()
+        for v, _tail in list(unconfirmed):
+            w = v.get("worker")
+            if not w or v["class"] in seen or v["class"] in done_hist or len(done_hist) >= 2:
+                continue
+            done_hist.add(v["class"])
+            hpath = history_replay(prop, v, w)
+            if hpath:
+                print(f"VIOLATION property={prop} replay={hpath}")
+                print(f"  class={v['class']} run={v['run']} detail={v['detail'][:300]} (needs what the process executed before: the replay file is a scenario history)")
+                replay_paths.append(hpath)
+                seen.add(v["class"])
+                unconfirmed = [u for u in unconfirmed if u[0]["class"] != v["class"]]
         if replay_paths:
             rc = 1
             for v, _tail in unconfirmed:
